@@ -68,6 +68,18 @@ def build_tree(rng, idx: int):
     add_dir(["pk"], 0, False, True)
     if not any(not g["filtered"] for g in gt):
         add_module(["pk"], "always", False, True)
+    # a filtered package whose __init__ declares things that a regular module imports (the import must not drag the
+    # package's declarations into the output without the flag)
+    fdirs = sorted({"/".join(g["rel"].split("/")[1:-1]) for g in gt if g["filtered"] and g["rel"].split("/")[-2] in FILTERED})
+    if fdirs:
+        d = rng.choice(fdirs)
+        tok = f"fixture_t{idx}_init"
+        cls = f"FixtureBox{idx}"
+        files[f"src/{d}/__init__.py"] = f'"""Test support."""\n\n\ndef {tok}(a: int = 0) -> int:\n    return a\n\n\nclass {cls}:\n    held: int = 0\n'
+        gt.append({"rel": f"src/{d}/__init__.py", "module_id": d, "token": tok, "cls": cls, "filtered": True, "proper_package": True, "is_init": True})
+        user = f"uses_fixture_{idx}"
+        files[f"src/pk/{user}.py"] = f"from {d.replace('/', '.')} import {tok}, {cls}\n\n\ndef fn_user_{idx}(x: int = 1) -> int:\n    return {tok}(x)\n\n\nclass ClsUser{idx}:\n    y: int = 2\n"
+        gt.append({"rel": f"src/pk/{user}.py", "module_id": f"pk/{user}", "token": f"fn_user_{idx}", "cls": f"ClsUser{idx}", "filtered": False, "proper_package": True})
     return files, gt
 
 
@@ -111,10 +123,12 @@ def make_judge(chk: Check):
             in_json = g["token"] in fn_names
             in_stub = g["token"] in stub_text or g["cls"] in stub_text
             if g["filtered"] and not tr:
-                if in_json or g["module_id"] in mod_ids:
+                if in_json or (g["module_id"] in mod_ids and not g.get("is_init")) or (g.get("is_init") and any(c["id"].startswith(g["module_id"] + "/") for c in api.get("classes", []))):
                     viols.append(Viol("filtered-file-in-json", kind, {"file": g["rel"], "flag": tr}))
                 if in_stub:
                     viols.append(Viol("filtered-file-in-stubs", kind, {"file": g["rel"], "flag": tr}))
+            elif g.get("is_init") and tr:
+                pass  # what an __init__ declares is inventoried under the package id; judged without the flag only
             else:
                 if not in_json:
                     viols.append(Viol("file-does-not-contribute", kind, {"file": g["rel"], "flag": tr, "filtered_dir": g["filtered"]}))
